@@ -128,8 +128,9 @@ Print Assumptions outermost_handler_error_is_result_nested.
     together with the error, the handler turns it into 7, and the
     casValidatingReader rejects 2 bytes against a size of 1 before it looks at
     the error: the consumer gets 13 (INTERNAL), not 7.  C16's monitor excepts
-    this situation ([toolong], Run/R16.v); C16N's does not: a false alarm of
-    the monitor's clause 2. *)
+    this situation ([toolong], Run/R16.v); the raw [mon16N] does not - it would be a
+    false alarm of clause 2; the monitor the judge applies, [mon16Nx] (below), has the
+    exception. *)
 Theorem monitor_clause_2_fires_on_the_model :
   dom16N w2_inp /\ mon16N w2_inp (run16N w2_inp) = [2%Z].
 Proof. split; [exact w2_in_domain|exact (proj2 clause2_fires_on_the_model)]. Qed.
@@ -156,6 +157,47 @@ Theorem monitor_silent_on_model_nested : forall inp,
   mon16N inp (run16N inp) = [].
 Proof. exact mon16N_silent_on_model_fuel. Qed.
 Print Assumptions monitor_silent_on_model_nested.
+
+(** * The monitor the judge applies ([mon16Nx], Run/R16N.v): [mon16N] with the
+    too-long exception on clause 2.  It reports a subset of what [mon16N] reports, so
+    it is silent wherever [mon16N] is; on the refutation witness above it is silent
+    (the exception is exactly that situation); it still reports clause 2 when the
+    exception does not apply, and every other clause unchanged. *)
+Theorem mon16Nx_incl : forall inp obs z, In z (mon16Nx inp obs) -> In z (mon16N inp obs).
+Proof.
+  intros inp obs z. unfold mon16Nx. destruct (toolong16N inp obs); [|exact (fun H => H)].
+  intros H. apply filter_In in H. exact (proj1 H).
+Qed.
+Print Assumptions mon16Nx_incl.
+
+Theorem mon16Nx_other_clauses_unchanged : forall inp obs z,
+  z <> 2%Z -> In z (mon16N inp obs) -> In z (mon16Nx inp obs).
+Proof.
+  intros inp obs z Hz Hin. unfold mon16Nx. destruct (toolong16N inp obs); [|exact Hin].
+  apply filter_In. split; [exact Hin|]. destruct (Z.eqb_spec z 2); [contradiction|reflexivity].
+Qed.
+Print Assumptions mon16Nx_other_clauses_unchanged.
+
+Theorem judge_monitor_silent_on_model_nested : forall inp,
+  dom16NF inp ->
+  (is_to_reader (n_meth (dec_case16N inp)) = true ->
+   z_err (out16N inp) <> ECode (g_code (n_cfg (dec_case16N inp)))) ->
+  mon16Nx inp (run16N inp) = [].
+Proof.
+  intros inp Hd Hr. pose proof (monitor_silent_on_model_nested inp Hd Hr) as H.
+  destruct (mon16Nx inp (run16N inp)) as [|z l] eqn:E; [reflexivity|].
+  exfalso. assert (Hin : In z (mon16N inp (run16N inp))) by (apply mon16Nx_incl; rewrite E; left; reflexivity).
+  rewrite H in Hin. exact Hin.
+Qed.
+Print Assumptions judge_monitor_silent_on_model_nested.
+
+Theorem judge_monitor_on_model_only_clause_2_left : forall inp,
+  dom16NF inp -> forall c, In c (mon16Nx inp (run16N inp)) -> c = 2%Z.
+Proof. intros inp Hd c Hin. exact (monitor_on_model_all_but_clause_2 inp Hd c (mon16Nx_incl _ _ _ Hin)). Qed.
+Print Assumptions judge_monitor_on_model_only_clause_2_left.
+
+Example judge_monitor_silent_on_the_refutation_witness : mon16Nx w2_inp (run16N w2_inp) = [].
+Proof. vm_compute. reflexivity. Qed.
 
 (** * Non-vacuity.  The shrunk witness of seeded change C16-c (corpus/C16N):
     WithErrorHandler(WithErrorHandler(stream failing after 2 bytes, h1), h0);
